@@ -45,6 +45,9 @@ struct ReplaySpec {
     /// transient read error: (position in the history, n-th read call of that query)
     #[serde(default)]
     eio: Option<(usize, u64)>,
+    /// capacity of the archive reader's BufReader for this history (None = derived from the history)
+    #[serde(default)]
+    bufcap: Option<usize>,
 }
 
 fn explore(source: PipeSpec, only: Option<ReplaySpec>, index: u64, tier: Tier, want_sample: bool) -> RunReport {
@@ -58,16 +61,17 @@ fn explore(source: PipeSpec, only: Option<ReplaySpec>, index: u64, tier: Tier, w
     }
     let bytes = Arc::new(run.world.get_file(pipeline::ARCHIVE_PATH).unwrap_or_default());
     let arch_id = seed::fnv64(&bytes);
-    let mk_eio = |class: &str, detail: String, history: Option<Vec<usize>>, conc: Option<ConcSpec>, faults: Option<(u8, u8, u64)>, eio: Option<(usize, u64)>| Violation {
+    let only_bufcap = only.as_ref().and_then(|o| o.bufcap);
+    let mk_eio = |class: &str, detail: String, history: Option<Vec<usize>>, conc: Option<ConcSpec>, faults: Option<(u8, u8, u64)>, eio: Option<(usize, u64)>, bufcap: Option<usize>| Violation {
         property: "C08".into(),
         class: class.into(),
         detail,
-        spec: serde_json::to_value(&ReplaySpec { source: source.clone(), history, conc, faults, eio }).unwrap(),
+        spec: serde_json::to_value(&ReplaySpec { source: source.clone(), history, conc, faults, eio, bufcap }).unwrap(),
         engine: "reader-sim".into(),
         index,
         event_log_digest: arch_id,
     };
-    let mk = |class: &str, detail: String, history: Option<Vec<usize>>, conc: Option<ConcSpec>, faults: Option<(u8, u8, u64)>| mk_eio(class, detail, history, conc, faults, None);
+    let mk = |class: &str, detail: String, history: Option<Vec<usize>>, conc: Option<ConcSpec>, faults: Option<(u8, u8, u64)>| mk_eio(class, detail, history, conc, faults, None, None);
     let qs = match reader::alphabet(&bytes) {
         Ok(q) => q,
         Err(e) => {
@@ -93,29 +97,34 @@ fn explore(source: PipeSpec, only: Option<ReplaySpec>, index: u64, tier: Tier, w
     let mut first: Option<Violation> = None;
     let mut classes_seen = std::collections::BTreeSet::new();
     let mut judge_hist = |h: &[usize], faults: Option<(u8, u8, u64)>, r: &mut RunReport, first: &mut Option<Violation>| {
-        let res = reader::run_history(&bytes, &qs, &fresh, h, faults);
-        r.evaluations += 1;
         let mut d = arch_id;
         for &x in h {
             d = seed::fnv_mix(d, x as u64 + 1);
         }
+        let bufcap = only_bufcap.unwrap_or([8192usize, 8192, 512, 64, 7][(seed::fnv_mix(d, 0xB0F) % 5) as usize]);
+        let res = reader::run_history_eio(&bytes, &qs, &fresh, h, faults, None, bufcap);
+        r.evaluations += 1;
+        r.count(&format!("bufreader_cap.{bufcap}"), 1);
         r.extra_digests.push(d);
         if let Some((_, class, detail)) = res.bad {
             r.count(&format!("bad.{class}"), 1);
             // keep the first violation of each class (shortest histories come first)
             if classes_seen.insert(class.clone()) && first.is_none() {
-                *first = Some(mk(&class, detail, Some(h.to_vec()), None, faults));
+                *first = Some(mk_eio(&class, detail, Some(h.to_vec()), None, faults, None, Some(bufcap)));
             }
         }
     };
     // histories in which one query meets a transient read error (EIO once, then healthy again)
     let mut judge_eio = |h: &[usize], eio: (usize, u64), r: &mut RunReport, first: &mut Option<Violation>| {
-        let res = reader::run_history_eio(&bytes, &qs, &fresh, h, None, Some(eio));
-        r.evaluations += 1;
         let mut d = arch_id ^ 0xE10 ^ (eio.0 as u64) << 40 ^ eio.1 << 48;
         for &x in h {
             d = seed::fnv_mix(d, x as u64 + 1);
         }
+        // small reader buffers: the handle has to go back to the file for almost every part
+        let bufcap = only_bufcap.unwrap_or([8192usize, 512, 64, 7, 1][(seed::fnv_mix(d, 0xB0F) % 5) as usize]);
+        let res = reader::run_history_eio(&bytes, &qs, &fresh, h, None, Some(eio), bufcap);
+        r.evaluations += 1;
+        r.count(&format!("bufreader_cap.{bufcap}"), 1);
         r.extra_digests.push(d);
         r.count("transient_read_error_histories", 1);
         if res.eio_fired {
@@ -125,7 +134,7 @@ fn explore(source: PipeSpec, only: Option<ReplaySpec>, index: u64, tier: Tier, w
             let class = if class == "history-dependent-answer" { "answer-after-read-error".to_string() } else { class };
             r.count(&format!("bad.{class}"), 1);
             if first.is_none() {
-                *first = Some(mk_eio(&class, format!("[read call {} of query #{} failed once with EIO] {detail}", eio.1, eio.0), Some(h.to_vec()), None, None, Some(eio)));
+                *first = Some(mk_eio(&class, format!("[read call {} of query #{} failed once with EIO] {detail}", eio.1, eio.0), Some(h.to_vec()), None, None, Some(eio), Some(bufcap)));
             }
         }
     };
@@ -284,10 +293,10 @@ impl Prop for C08 {
                 if rs.eio.is_some() && eio.is_none() {
                     continue;
                 }
-                out.push(ReplaySpec { source: rs.source.clone(), history: Some(h2), conc: None, faults: rs.faults, eio });
+                out.push(ReplaySpec { source: rs.source.clone(), history: Some(h2), conc: None, faults: rs.faults, eio, bufcap: rs.bufcap });
             }
             if rs.faults.is_some() {
-                out.push(ReplaySpec { source: rs.source.clone(), history: Some(h.clone()), conc: None, faults: None, eio: rs.eio });
+                out.push(ReplaySpec { source: rs.source.clone(), history: Some(h.clone()), conc: None, faults: None, eio: rs.eio, bufcap: rs.bufcap });
             }
         }
         out.into_iter().map(|s| serde_json::to_value(&s).unwrap()).collect()
